@@ -142,8 +142,14 @@ struct ReadOnly : Profile {
                     cd.chunk_lengths[j] = 1;
                 res = rank < 1 ? -1 : SDsetchunk(id, cd, HDF_CHUNK) == FAIL;
             }
-            else if (n == "SDsetexternalfile")
+            else if (n == "SDsetexternalfile") {
+                // on a dataset that is external already the call is documented to have no effect and to succeed: not a mutation
+                if (SDgetexternalinfo(id, 0, NULL, NULL, NULL) > 0) {
+                    SDendaccess(id);
+                    return -1;
+                }
                 res = SDsetexternalfile(id, "/sim/ro_ext.dat", 0) == FAIL;
+            }
             SDendaccess(id);
             return res;
         }
